@@ -215,6 +215,11 @@ func runC12(t *testing.T, rc *core.RunCtx) {
 		if c12Skip[n] || (park && c12WriterMethods[n]) {
 			continue
 		}
+		// the mirror calls its tracers with the tracer list locked: while the
+		// harness tracer is parked in there nobody may ask for that lock
+		if target == "netmach" && park && (n == "TracerBind" || n == "TracerDetach" || n == "Tracers" || n == "BindTracer" || n == "DetachTracer") {
+			continue
+		}
 		methods = append(methods, n)
 	}
 	sort.Strings(methods)
@@ -229,6 +234,11 @@ func runC12(t *testing.T, rc *core.RunCtx) {
 		var prog []c12Call
 		for i := 0; i < n; i++ {
 			name := methods[tp.Draw(len(methods))]
+			// the mirror's own business: subscriptions against the clocks and
+			// queue ticks the feeder replays
+			if target == "netmach" && tp.Draw(3) == 0 {
+				name = []string{"WhenQueue", "WhenQueue", "WhenQueueEnds", "WhenTicks", "When1", "WhenTime1", "QueueTick", "Time"}[tp.Draw(8)]
+			}
 			// bias towards mutations so that transitions actually run
 			if target == "machine" && tp.Draw(3) == 0 {
 				name = []string{"Add", "Remove", "Set", "Add1", "Toggle1", "AddErr", "Add1", "HandlersDetach", "HandlersBindMaps"}[tp.Draw(9)]
@@ -319,6 +329,16 @@ func runC12(t *testing.T, rc *core.RunCtx) {
 			}
 			nmInt = internal
 			recv = reflect.ValueOf(nm)
+			if park {
+				// a tracer of the mirror is the one place inside a clock update
+				// where other tasks can get a turn (the clock lock is released
+				// for the tracers' TransitionEnd)
+				if _, err := nm.TracerBind(&rpcTracer{TracerNoOp: &am.TracerNoOp{Id: "park"}, end: func(tx *am.Transition) {
+					s.Yield("h.nmtx", "")
+				}}); err != nil {
+					panic(err)
+				}
+			}
 			s.Go("feeder", func() {
 				for i, tm := range feed {
 					// the clock lock is taken by the caller and released by
